@@ -414,7 +414,8 @@ def run_ctor(case):
             dm = I.mkdm(mtx, objs, weights=w, alternatives=alts, criteria=crits)
         else:
             from skcriteria.core.data import DecisionMatrix
-            df = pd.DataFrame(mtx, index=alts, columns=crits)
+            # (half of the frames are zero-copy windows on the caller's numpy table)
+            df = pd.DataFrame(mtx, index=alts, columns=crits, copy=not case.get("window", False))
             dm = DecisionMatrix(df, objs, w)
         s0 = snap_dm(dm)
         acc = 0
@@ -427,7 +428,7 @@ def run_ctor(case):
             else:
                 acc += mutate(a, "list_set")
         if case["via"] != "mkdm":
-            acc += mutate(df, "pd_iloc") + mutate(df, "pd_values") + mutate(df, "pd_index_name")
+            acc += mutate(df, "pd_array") + mutate(df, "pd_iloc") + mutate(df, "pd_values") + mutate(df, "pd_index_name")
         s1 = snap_dm(dm)
         return {"diffs": [k for k in s0 if s0[k] != s1[k]], "accepted": acc, "log": []}
     except Exception as e:  # noqa: BLE001
@@ -482,6 +483,7 @@ def run(ctx):
         c["obj_kind"] = ctx.rng.choice(["int", "object"])
         c["via"] = ctx.rng.choice(["mkdm", "mkdm", "ctor"])
         c["frozen"] = ctx.rng.random() < 0.3
+        c["window"] = ctx.rng.random() < 0.5
         c["kind"] = "ctor"
         ccases.append(c)
     couts = I.pmap(run_ctor, ccases, on_crash=_crashed)
